@@ -587,14 +587,17 @@ def clashing_roots(j: Job) -> typing.Set[str]:
 
 
 def diag_head(out: str) -> str:
-    """the first diagnostic with its context: everything up to (not including) the second `error:` line, plus the source line it points at"""
+    """the first diagnostic with its context: everything up to (not including) the second `error:` line, plus every source line of a
+    generated file that this part points at (the error location and the `required from` / `In instantiation` locations)"""
     lines = out.splitlines()
     idx = [i for i, l in enumerate(lines) if ': error:' in l or 'fatal error' in l]
     head = lines[:idx[1]] if len(idx) > 1 else lines
     txt = '\n'.join(head)
-    if idx:
-        m = re.match(r'(\S+?):(\d+):\d+: ', lines[idx[0]])
-        if m:
+    seen = set()
+    for l in head:
+        m = re.match(r'\s*(\S+?):(\d+):\d+: ', l)
+        if m and (m.group(1), m.group(2)) not in seen and not m.group(1).startswith('/usr/'):
+            seen.add((m.group(1), m.group(2)))
             try:
                 txt += '\n' + open(m.group(1), encoding='utf-8', errors='replace').read().splitlines()[int(m.group(2)) - 1]
             except (OSError, IndexError):
@@ -620,7 +623,13 @@ def folded_type_names(j: Job) -> typing.Set[str]:
 
 
 def member_clash_names(j: Job) -> typing.Set[str]:
-    return verbatim_names(j, ({'size_t', 'std'} | ({'allocator_type'} if (j.cfg['std'] or '').endswith('pmr') else set())) & attr_names_of(j.clos))
+    """fields / constants of the closure named like a member the C++ templates declare in the generated class (set derived from the templates:
+    type aliases, nested classes, static members, member functions; plus the unqualified `size_t` / `std` the templates rely on), emitted
+    verbatim.  For a C header in a C++ TU only `size_t` / `std` apply."""
+    base = {'size_t', 'std'}
+    if j.lang == 'cpp':
+        base |= set(dg.generated_cpp_members(core.REPO))
+    return verbatim_names(j, base & attr_names_of(j.clos))
 
 
 ERR_RE = re.compile(r'(?:error|Error)\b')
